@@ -80,6 +80,14 @@ def name_pool(r, tier):
               "emoji😀", "😀", "a😀b.😀", "Ñandú.doc", "naïve.txt", "ı.txt", "ǅ.txt", "ﬃ.txt",
               "+plus", "a+b.txt", "semi;colon", "a=b", "[brackets]", "comma,name", "A+B.TXT",
               "~tilde", "FOO~1", "FOO~1.TXT", "_under", "$dollar%percent", "(paren)", "{brace}", "'quote'", "`back`", "^caret", "#hash", "@at", "&and", "!bang", "-dash"]
+    # non-BMP characters (two UTF-16 units each) around every slot boundary: the unit count, not the
+    # character count, decides terminator and padding
+    for units in (12, 13, 14, 25, 26, 27, 38, 39, 40, 129, 130, 131, 254, 255):
+        for nsurr in (1, 2):
+            base = units - 2 * nsurr
+            if base >= 1:
+                names.append("s" * (base - 1) + "\U0001F600" * nsurr + "z")
+                names.append("\U0001F431" * nsurr + "q" * base)
     # alias-collision families
     for i in range(14 if tier == "quick" else 140):
         names.append("collide_family_%04d.data" % i)
@@ -153,6 +161,15 @@ def run(tier):
                     impl = "err " + err
                 i = d.ask(req)
                 pend.append((i, "newname", req, impl, rep))
+                if err is None and impl.startswith("ok") and ent.lfn_entry is not None:
+                    try:
+                        u = list(memoryview(nm.encode("utf-16-le")).cast("H"))
+                        cks = ent.name.checksum()
+                        raw = bytes(ent.lfn_entry)
+                        j = d.ask("vol lfn_make %s %d" % (natlist(u), cks))
+                        pend.append((j, "lfn_make", "lfn_make %r" % nm[:40], "ok %s %s" % (hexs(raw), natlist(u)), rep))
+                    except Exception as e:  # noqa
+                        res.notes.append("lfn inspect failed: " + exc_class(e))
                 # ---- oracle C15
                 if err is not None:
                     res.fail(["C15"], "names:create-fails:%s:%s" % (err, classify(nm)),
@@ -213,9 +230,9 @@ def run(tier):
     for i, kind, req, impl, rep in pend:
         if kind == "cp":
             continue
-        res.count("cmp:newname")
+        res.count("cmp:" + kind)
         if out[i] != impl:
-            res.diverge("newname", req, out[i], impl, ["C15", "C05"])
+            res.diverge(kind, req, out[i], impl, ["C15", "C05"])
     return res
 
 
